@@ -189,7 +189,7 @@ def run(rep: core.Report):
     tup = [st for st in ast.walk(sq) if isinstance(st, ast.Assign) and isinstance(st.targets[0], ast.Tuple) and "self._multi[" in core.src(st.value)]
     ok_pair = len(tup) == 1 and [core.src(t) for t in tup[0].targets[0].elts] == ["multi", "adrs"] and core.src(tup[0].value).replace(" ", "") == "self._multi[s_j,p_i]"
     rep.instance("R06c", D2F, "DynmatToForceConstants._sum_q", "shortest vectors of the pair (supercell atom s_j, primitive atom p_i)", ok_pair, "the pair addressing of the shortest vectors differs from the forward transform (multi[k][i])", line=sq.lineno)
-    rets = [r.value for r in ast.walk(sq) if isinstance(r, ast.Return)]
+    rets = [core.resolve_name(sq, r.value) for r in ast.walk(sq) if isinstance(r, ast.Return)]
     rep.instance("R06c", D2F, "DynmatToForceConstants._sum_q", f"returns {core.src(rets[0]) if rets else '?'}", len(rets) == 1 and core.src(rets[0]).endswith(".real"), "the real part is not taken", line=sq.lineno)
     pinv = core.find_def(D2F, "DynmatToForceConstants._py_inverse_transformation")
     core.require_names(pinv, ["coef", "N", "m", "p_i", "p_j", "s_j", "fc_elem"], f"{D2F}::_py_inverse_transformation")
